@@ -1308,7 +1308,7 @@ sf_command	(SNDFILE *sndfile, int command, void *data, int datasize)
 			if ((psf->file.mode != SFM_WRITE) && (psf->file.mode != SFM_RDWR))
 				return SF_FALSE ;
 			/* If data has already been written this must fail. */
-			if (psf->broadcast_16k == NULL && psf->have_written)
+			if (psf->have_written)
 			{	psf->error = SFE_CMD_HAS_DATA ;
 				return SF_FALSE ;
 				} ;
@@ -1338,7 +1338,7 @@ sf_command	(SNDFILE *sndfile, int command, void *data, int datasize)
 			if ((psf->file.mode != SFM_WRITE) && (psf->file.mode != SFM_RDWR))
 				return SF_FALSE ;
 			/* If data has already been written this must fail. */
-			if (psf->cart_16k == NULL && psf->have_written)
+			if (psf->have_written)
 			{	psf->error = SFE_CMD_HAS_DATA ;
 				return SF_FALSE ;
 				} ;
